@@ -1016,6 +1016,10 @@ func canonSlice(t *Term) *Term {
 		return canonSlice(&Term{Op: "slice", V: t.V, Args: []*Term{in.Args[0], lo, hi}})
 	}
 	base := t.Args[0]
+	// x[lo:len(x)] is x[lo:]
+	if h := t.Args[2]; h.Op == "len" && len(h.Args) == 1 && h.Args[0].String() == base.String() {
+		t = &Term{Op: "slice", V: t.V, Args: []*Term{t.Args[0], t.Args[1], {Op: "none"}}}
+	}
 	// a[lo:N] of an array [N]T is a[lo:]
 	if hi, isC := isConstInt(t.Args[2]); isC {
 		root := base
